@@ -552,11 +552,11 @@ func vMkRange(r *rand.Rand, fam int, lo, hi *big.Int) vAddr {
 //   X (k%4):      CIDR block | the same block as a range | ragged range inside | ragged range across
 //   Y ((k/4)%6):  one summarised block of X as CIDR | the same as a range | a longer CIDR inside a
 //                 block of X | a range overlapping X's end | adjacent, disjoint | a CIDR containing X
-//   (k/24)%2: order of the pools, (k/48)%2: family, k >= 96: a BGP advertisement on top
+//   (k/36)%2: order of the pools, (k/72)%2: family, k >= 144: a BGP advertisement on top
 // Only "adjacent, disjoint" may be accepted.
 func vGenNotation(r *rand.Rand, k int) vSnap {
 	fam := 4
-	if (k/48)%2 == 1 {
+	if (k/72)%2 == 1 {
 		fam = 6
 	}
 	w := vW(fam)
@@ -582,7 +582,7 @@ func vGenNotation(r *rand.Rand, k int) vSnap {
 	b := blocks[r.Intn(len(blocks))]
 	brg := vCidrRange(fam, b.lo, b.len)
 	var Y vAddr
-	rel := (k / 4) % 6
+	rel := (k / 4) % 9
 	switch rel {
 	case 0:
 		Y = vMkCidr(r, fam, b.lo, b.len)
@@ -603,24 +603,34 @@ func vGenNotation(r *rand.Rand, k int) vSnap {
 		} else {
 			Y = vMkCidr(r, fam, lo, w)
 		}
-	default:
+	case 5:
 		Y = vMkCidr(r, fam, base.lo, lb-1-r.Intn(2))
+	case 6: // shares exactly ONE address with X: a range that starts on X's last address
+		Y = vMkRange(r, fam, xhi, new(big.Int).Add(xhi, n(int64(1+r.Intn(20)))))
+	case 7: // ... a host prefix on X's last (or first) address
+		if r.Intn(2) == 0 {
+			Y = vMkCidr(r, fam, xhi, w)
+		} else {
+			Y = vMkCidr(r, fam, xlo, w)
+		}
+	default: // ... a range that ends on X's first address
+		Y = vMkRange(r, fam, new(big.Int).Sub(xlo, n(int64(1+r.Intn(20)))), xlo)
 	}
 	s := vSnap{Modelled: true, Directed: fmt.Sprintf("notation_x%d_y%d", k%4, rel), Nodes: []vNode{{Name: 0}}}
 	px, py := vPool{Name: 1, Addrs: []vAddr{X}}, vPool{Name: 3, Addrs: []vAddr{Y}}
 	switch {
 	case k%7 == 0: // both entries in one pool
 		px.Addrs = []vAddr{X, Y}
-		if (k/24)%2 == 1 {
+		if (k/36)%2 == 1 {
 			px.Addrs = []vAddr{Y, X}
 		}
 		s.Pools = []vPool{px}
-	case (k/24)%2 == 1:
+	case (k/36)%2 == 1:
 		s.Pools = []vPool{py, px}
 	default:
 		s.Pools = []vPool{px, py}
 	}
-	if k >= 96 {
+	if k >= 144 {
 		s.BGP = []vBGP{{Name: 0}}
 	}
 	return s
@@ -715,6 +725,57 @@ func vRejectReason(s vSnap) string {
 			for _, e := range all {
 				if ip.Internal && e.w.has(ip.Fam, vBig(ip.A)) {
 					return "a node internal IP lies in an address entry"
+				}
+			}
+		}
+	}
+	// two advertisements on a common pool that would give one route two local preferences
+	nodesOf := func(ss []vSel) map[int]bool {
+		m := map[int]bool{}
+		for _, n := range s.Nodes {
+			if len(ss) == 0 || vAnyMatches(ss, n.Labels) {
+				m[n.Name] = true
+			}
+		}
+		return m
+	}
+	onPool := func(a vBGP, p vPool) bool {
+		return (len(a.Pools) == 0 && len(a.PoolSels) == 0) || vHas(a.Pools, p.Name) || vAnyMatches(a.PoolSels, p.Labels)
+	}
+	agg := func(a vBGP, fam int) int {
+		if fam == 4 {
+			if a.Agg4 != nil {
+				return *a.Agg4
+			}
+			return 32
+		}
+		if a.Agg6 != nil {
+			return *a.Agg6
+		}
+		return 128
+	}
+	for i, a := range s.BGP {
+		for _, b := range s.BGP[i+1:] {
+			if a.LP == b.LP {
+				continue
+			}
+			peers := len(a.Peers) == 0 || len(b.Peers) == 0
+			for _, x := range a.Peers {
+				peers = peers || vHas(b.Peers, x)
+			}
+			common := false
+			nb := nodesOf(b.NodeSels)
+			for n := range nodesOf(a.NodeSels) {
+				common = common || nb[n]
+			}
+			for pi, p := range s.Pools {
+				if !onPool(a, p) || !onPool(b, p) || !peers || !common {
+					continue
+				}
+				for _, e := range all {
+					if e.pool == pi && agg(a, e.w.fam) == agg(b, e.w.fam) {
+						return "two advertisements give one route two local preferences"
+					}
 				}
 			}
 		}
@@ -906,8 +967,11 @@ func TestVerifCfg(t *testing.T) {
 	}
 	snaps = append(snaps, vCorpusCfg()...)
 	if n > 0 {
-		for k := 0; k < 96; k++ {
-			snaps = append(snaps, vGenNotation(r, k+96*r.Intn(2)))
+		for k := 0; k < 144; k++ {
+			snaps = append(snaps, vGenNotation(r, k+144*r.Intn(2)))
+		}
+		for k := 0; k < 12; k++ {
+			snaps = append(snaps, vGenPeerClash(r, k))
 		}
 		for k := 0; k < 64; k++ {
 			snaps = append(snaps, vGenMixedNode(r, k))
@@ -1121,6 +1185,18 @@ func TestVerifCfg(t *testing.T) {
 		again = r.Intn(4) == 0 // the same block again, in whatever notation comes out
 		b, rb, _ := mk()
 		again = false
+		if r.Intn(5) == 0 { // exactly one shared address: the host prefix of a's first or last address
+			edge := ra.lo
+			if r.Intn(2) == 0 {
+				edge = ra.hi
+			}
+			if !(ra.fam == 6 && vIsMappedRange(edge)) {
+				if ns, err := ParseCIDR(fmt.Sprintf("%s/%d", vText(ra.fam, edge, false), vW(ra.fam))); err == nil && len(ns) == 1 {
+					b, rb = ns[0], vCidrRange(ra.fam, edge, vW(ra.fam))
+					out.Stat("overlap_one_shared_address", 1)
+				}
+			}
+		}
 		got := cidrsOverlap(a, b)
 		want := ra.meets(rb)
 		out.Stat("overlap_checks", 1)
